@@ -84,19 +84,20 @@ def run_listby(case, ctx):
         ok2 = st2 == 'ok' and type(ul) is dictable and sorted(ul.keys()) == sorted(cols) and len(ul) == n and all(same(dict(a), b) for a, b in zip(ul, exp))
         ctx.check('unlist_sorted_original', ok2, lambda: 'unlist(listby) = %s\nexpected (stable sort by keys) %s' % ([dict(r) for r in ul] if st2 == 'ok' else ul, exp))
     else:
-        st, gb = ctx.call(d.groupby, *keys)
+        GRP = case.get('grp', 'grp')
+        st, gb = ctx.call(d.groupby, *keys) if GRP == 'grp' else ctx.call(d.groupby, *keys, grp=GRP)
         if st != 'ok':
             ctx.ev('groupby_model'); ctx.fail('groupby_model', 'groupby raised %s' % core.exc_str(gb)); return
         if n == 0:
             ctx.check('groupby_model', len(gb) == 0, lambda: 'groupby of empty table: %r' % gb)
             return
-        ok = type(gb) is dictable and len(gb) == len(g) and sorted(gb.keys()) == sorted(keys + ['grp'])
+        ok = type(gb) is dictable and len(gb) == len(g) and sorted(gb.keys()) == sorted(keys + [GRP])
         if ok:
             tot = 0
             for r in gb:
                 k = tuple(r[c] for c in keys)
                 m = [rs for kk, rs in g if keq(kk, k)]
-                sub = r['grp']
+                sub = r[GRP]
                 if len(m) != 1 or type(sub) is not dictable or sorted(sub.keys()) != sorted(others) or len(sub) != len(m[0]) or \
                         any(not same(dict(a), {c: b[c] for c in others}) for a, b in zip(sub, m[0])):
                     ok = False
@@ -104,14 +105,15 @@ def run_listby(case, ctx):
                 tot += len(sub)
             ok = ok and tot == n
         ctx.check('groupby_model', ok, lambda: 'groupby(%s): %s\nmodel %s' % (keys, [dict(r) for r in gb], g))
-        st2, ug = ctx.call(gb.ungroup)
+        ungroup = (lambda: gb.ungroup()) if GRP == 'grp' else (lambda: gb.ungroup(GRP))
+        st2, ug = ctx.call(ungroup)
         ok2 = st2 == 'ok' and type(ug) is dictable and sorted(ug.keys()) == sorted(cols) and \
             collections.Counter(rowkey(dict(r)) for r in ug) == collections.Counter(rowkey(r) for r in rows)
         ctx.check('ungroup_multiset', ok2, lambda: 'ungroup(groupby) = %s\noriginal %s' % ([dict(r) for r in ug] if st2 == 'ok' else ug, rows))
         if ok and ok2:
             # the grouped table is an operand of ungroup: it must still hold the same groups, and ungrouping again gives the same rows
-            sizes = [len(r['grp']) for r in gb]
-            st3, ug2 = ctx.call(gb.ungroup)
+            sizes = [len(r[GRP]) for r in gb]
+            st3, ug2 = ctx.call(ungroup)
             ok3 = sum(sizes) == n and st3 == 'ok' and collections.Counter(rowkey(dict(r)) for r in ug2) == collections.Counter(rowkey(r) for r in rows)
             ctx.check('ungroup_multiset', ok3, lambda: 'after one ungroup() the grouped table changed: sub-table sizes %s (len(d)=%d); second ungroup %s' % (sizes, n, [dict(r) for r in ug2] if st3 == 'ok' else ug2))
     ctx.check('operands_unchanged', core.snap_same(core.snap(dict(d)), snap0), lambda: 'table modified')
@@ -132,13 +134,13 @@ def run_listby(case, ctx):
                     if len(m) != 1 or any(not same(r[c], [x[c] for x in m[0]]) for c in others):
                         ok3 = False
         else:
-            st3, gb2 = ctx.call(d.groupby, *keys)
+            st3, gb2 = ctx.call(d.groupby, *keys) if GRP == 'grp' else ctx.call(d.groupby, *keys, grp=GRP)
             ok3 = st3 == 'ok' and len(gb2) == len(g2)
             if ok3:
                 for r in gb2:
                     k = tuple(r[c] for c in keys)
                     m = [rs for kk, rs in g2 if keq(kk, k)]
-                    if len(m) != 1 or len(r['grp']) != len(m[0]) or any(not same(dict(a), {c: b[c] for c in others}) for a, b in zip(r['grp'], m[0])):
+                    if len(m) != 1 or len(r[GRP]) != len(m[0]) or any(not same(dict(a), {c: b[c] for c in others}) for a, b in zip(r[GRP], m[0])):
                         ok3 = False
         ctx.check('repeat_after_key_reassignment', ok3, lambda: '%s repeated on the same table after reassigning key column %r disagrees with the model groups %s' % (how, c0, g2))
     if len(g) >= 2 and any(len(rs) >= 2 for _, rs in g):
@@ -222,14 +224,16 @@ def run_case(case, ctx):
 def gen_case(rng):
     how = rng.choice(['listby', 'listby', 'groupby', 'pivot', 'pivot'])
     n = rng.choice([0, 1, 2, 3, 4, 5, 6, 8, 10]) if how != 'pivot' else rng.choice([1, 2, 3, 4, 5, 6, 8, 10])
+    if how != 'pivot' and rng.random() < 0.02:
+        n = rng.choice([256, 300, 520])       # long tables: any size-dependent path of the grouping code
     if how == 'pivot':
         nx = rng.choice([1, 1, 2])
         x = rng.choice([['a', 'b'], ['id1', 'tk'], ['ticker', 'p2']])[:nx]
         kinds = [rng.choice(['int', 'str', 'num', 'dt', 'mixed']) for _ in x]
         cols = {c: [kcell(rng, k) for _ in range(n)] for c, k in zip(x, kinds)}
-        ykind = rng.choice(['str', 'int', 'both'])
-        ypool = {'str': ['p', 'q', 'r'], 'int': [1, 2, 3], 'both': ['p', 'q', 1, 2]}[ykind]
-        if x[0] != 'a':
+        ykind = rng.choice(['str', 'int', 'both', 'str', 'int', 'both', 'other'])
+        ypool = {'str': ['p', 'q', 'r'], 'int': [1, 2, 3], 'both': ['p', 'q', 1, 2], 'other': [2.5, 0.5, {'$dt': '2020-01-01T00:00:00'}, {'$dt': '2021-06-30T00:00:00'}, 'p']}[ykind]
+        if x[0] != 'a' and ykind != 'other':
             ypool = {'str': ['tick', 'e', 'd', 'q'], 'int': [1, 2, 3], 'both': ['t', 'k', 1, 2]}[ykind]     # labels that are substrings of an x column name
         cols['y'] = [rng.choice(ypool) for _ in range(n)]
         cols['z'] = [rng.choice([0, 1, 2.5, 'u', 'v', 7, {'$nan': rng.randrange(9)}]) for _ in range(n)]
@@ -246,7 +250,10 @@ def gen_case(rng):
         else:
             cols[c] = gen.cells(rng, n, nan=0.1)
     cols['id'] = list(range(n))
-    return {'how': how, 'cols': cols, 'keys': keys, 'star': rng.random() < 0.7, 'phase2': rng.random() < 0.3}
+    case = {'how': how, 'cols': cols, 'keys': keys, 'star': rng.random() < 0.7, 'phase2': rng.random() < 0.3}
+    if how == 'groupby' and rng.random() < 0.3:
+        case['grp'] = rng.choice(['sub', 'g2', 'rows'])
+    return case
 
 
 def plan(tier, seed, n):
